@@ -16,10 +16,13 @@ META = {
     "level_text": "Machine-checked for ALL interleavings (any length) of the modelled atomic steps, both timer-channel "
                   "semantics: no timeout before the deadline of the current arming; close and socket error wake every "
                   "blocked caller; after Close Write fails, Read drains then fails, second Close errors; one caller of a "
-                  "kind never loses a wake-up; several writers are re-notified by update(); a deadline stored before the "
-                  "call and replaced while blocked is followed.  Refuted on the current source with replayable witnesses: "
-                  "multi-reader lost wake-up (F4), Accept deadline (F10), set->zero->set (F11), none->set (F12), and a "
-                  "deadline change with several blocked callers.  The proposed repairs are checked against the same statements.",
+                  "kind never loses a wake-up; several writers are re-notified by update(); for Read, Write and "
+                  "Accept alike every deadline value stored while the call is parked (none->set, later, earlier, "
+                  "set->zero->set, past, cleared) is followed and fires when it expires, and a timeout is returned only "
+                  "when the deadline stored at that moment has passed.  The defects found while proving (multi-reader "
+                  "lost wake-up F4, Accept deadline F10, set->zero->set F11, none->set F12, stale timers with several "
+                  "callers) are repaired in /repo; what remains recorded: with several blocked callers an EARLIER "
+                  "deadline reaches only the caller that gets the single wake-up token (the others time out late).",
     "level_note": "Partial for the runtime: the Go scheduler, the runtime's timers and select fairness, and wake-up latency "
                   "are assumed, not exhibited.  Atomicity assumption: between two yield points (function entry, label, "
                   "s.mu.Lock(), select without default) a call touches only its own locals, one critical section of s.mu, "
@@ -31,15 +34,14 @@ FILES = ["wait_test.go"]
 OBLIGATIONS = [
     "c13_explore_sound",
     "c13_no_early_timeout", "c13_no_early_timeout_cleared", "c13_no_early_timeout_strong",
-    "c13_deadline_change_seen_refuted", "c13_deadline_rearm_partial",
-    "c13_deadline_change_seen_rw", "c13_accept_deadline_refuted",
+    "c13_deadline_change_seen", "c13_deadline_rearm",
     "c13_close_wakes_all", "c13_error_wakes_all", "c13_after_close",
     "c13_single_waiter_no_lost_wakeup", "c13_single_waiter_set_deadline",
     "c13_multi_writer", "c13_multi_accepter", "c13_multi_reader",
     "c13_repairs_checked", "c13_repairs_strong_checked",
 ]
-PARTIAL = ["c13_deadline_rearm_partial"]
-REFUTED = ["c13_deadline_change_seen_refuted", "c13_accept_deadline_refuted"]
+PARTIAL = []
+REFUTED = []
 
 GEN = os.path.join(V.VERIF, "coq", "wait", "GenWait.v")
 
